@@ -15,6 +15,7 @@ import ast
 from typing import Dict
 from typing import List
 from typing import Optional
+from typing import Set
 from typing import Tuple
 
 from sa.kinds import path_of
@@ -239,6 +240,20 @@ def r11_2(ctx: Ctx) -> RuleResult:
     return rr
 
 
+def _loaded_names(fn: FuncInfo, dparam: str) -> Set[str]:
+    """Locals assigned a value computed by load_data(<document parameter>) - in any spelling."""
+    out: Set[str] = set()
+    for a in ast.walk(fn.node):
+        if isinstance(a, (ast.Assign, ast.AnnAssign)) and a.value is not None:
+            if any(isinstance(c, ast.Call) and callee_name(c) == "load_data" and c.args and path_of(c.args[0]) == dparam
+                   for c in ast.walk(a.value)):
+                tgt = a.targets[0] if isinstance(a, ast.Assign) else a.target
+                p = path_of(tgt)
+                if p:
+                    out.add(p)
+    return out
+
+
 class _Sym:
     """Symbolic evaluation of a compound find* implementation in a small sequence algebra.
 
@@ -258,6 +273,9 @@ class _Sym:
         self.step: Dict[str, str] = {}
         self.result: Optional[str] = None
         self.loops = 0
+        dparam = fn.node.args.args[1].arg if len(fn.node.args.args) > 1 else "data"
+        # the document: the parameter itself or a local holding load_data() of it (R11.7 decides which)
+        self.docs = {dparam} | _loaded_names(fn, dparam)
 
     # ------------------------------------------------------------ expressions
     def expr(self, e: ast.expr, env: Dict[str, str]) -> str:
@@ -274,7 +292,9 @@ class _Sym:
                 recv = self.expr(e.func.value, env)
                 if name != self.fn.name:
                     return f"?{recv}.{name}(...)"
-                if not _forwards(e, ["data"], ["filter_context"]):
+                pos = [path_of(a) for a in e.args]
+                kws = {k.arg: path_of(k.value) for k in e.keywords}
+                if not (len(pos) == 1 and pos[0] in self.docs and kws == {"filter_context": "filter_context"}):
                     return f"?{recv}.{name}({short(e, 60)}: arguments not forwarded)"
                 return f"R({recv})"
             if name in ("chain", "_achain") and e.args and not e.keywords:
@@ -365,6 +385,8 @@ class _Sym:
             if isinstance(s, (ast.Assign, ast.AnnAssign)) and (isinstance(s, ast.Assign) and len(s.targets) == 1 or isinstance(s, ast.AnnAssign)):
                 tgt = s.targets[0] if isinstance(s, ast.Assign) else s.target
                 if isinstance(tgt, ast.Name) and s.value is not None:
+                    if tgt.id in self.docs:
+                        continue  # the single loader of R11.7 is not part of the plan
                     env[tgt.id] = self.expr(s.value, env)
                     continue
             if isinstance(s, ast.Expr) and isinstance(s.value, ast.Call) and callee_name(s.value) == "extend" and isinstance(
@@ -587,11 +609,7 @@ def r11_7(ctx: Ctx) -> RuleResult:
             raise AnalysisError(f"CompoundJSONPath.{name} not found")
         dparam = fn.node.args.args[1].arg
         # names holding the loaded document
-        loaded = {
-            path_of(a.targets[0]) for a in ast.walk(fn.node)
-            if isinstance(a, ast.Assign) and isinstance(a.value, ast.Call) and callee_name(a.value) == "load_data"
-            and a.value.args and path_of(a.value.args[0]) == dparam
-        }
+        loaded = _loaded_names(fn, dparam)
         operand_calls = [
             c for c in calls(fn.node)
             if callee_name(c) in ("findall", "finditer", "findall_async", "finditer_async") and c.args
